@@ -2041,6 +2041,10 @@ func (d *Document) parseDocument() error {
 	}
 
 done:
+	if d.Body == nil {
+		// 主文档部件中没有 WordprocessingML 命名空间下的 document 根元素（空部件、其他根元素或其他命名空间）
+		return WrapError("parse_document", fmt.Errorf("word/document.xml has no w:document element in the WordprocessingML namespace"))
+	}
 	Infof("解析完成，共 %d 个元素", len(d.Body.Elements))
 	return nil
 }
